@@ -14,7 +14,7 @@ RULE = ("families: (A) instruction-level captures: every item sequence of length
         "capture, optionally preceded by a non-capturing repeated/alternative/negated item, later occurrences also inside "
         "$or/$not/$and-with-times; (B) operand-level captures: every pair of 'mov' items whose operand lists are drawn "
         "from {&x,&y,rax} (length 1..2), later occurrences inside operand-level $or/$not and in a following instruction; "
-        "(C) prefix/extension operands (0x1/0x10, %r8/%r8d) as first, middle and last operand; (D) 11 distinct names "
+        "(C) prefix/extension operands (0x1/0x10, %r8/%r8d) as first, middle and last operand; (D) 11 and 25 distinct names "
         "(back-references \\10, \\11) with every combination of bound values in the checking instruction; (E) [E4: two family names defined in both orders, with/without a preceding plain capture, names with an inner dot] register "
         "families &genreg/&indreg/&stackreg/&basereg: every (first-suffix, later-suffix) pair from {none,.64,.32,.16,.8h,"
         ".8l,.8H,.8L} x every pair of operands from all family register names plus look-alikes (0x1, %r8, other-family "
@@ -180,13 +180,33 @@ ALPHA_F = [("mov", ["0x8(%rax,%rbx,4)", "%rax"]), ("mov", ["0x8(%rax)", "%rax"])
            ("push", ["%rax"]), ("push", ["%rbx"]), ("push", ["$0x8"]), ("push", ["$8"]), ("mov", ["0x10(%rax)", "%rax"])]
 
 
+D25 = ["%rax", "%rbx", "%rcx", "%rdx", "%rsi", "%rdi", "%r8", "%r9", "%r10", "%r11", "%r12", "%r13", "%r14", "%r15", "%eax", "%ebx", "%ecx",
+       "%edx", "%esi", "%edi", "%r8d", "%r9d", "%r10d", "%r11d", "%r12d"]
+
+
+def fam_d25():
+    """25 distinct operand captures (\\1..\\25), then an instruction checking names i and j"""
+    names = [f"&n{k}" for k in range(1, 26)]
+    base_pat = [{"mov": [names[k], names[k + 1]]} for k in range(0, 24, 2)] + [{"push": [names[24]]}]
+    rules = []
+    for i, j in ((0, 1), (1, 0), (9, 10), (10, 9), (1, 11), (11, 1), (24, 0), (19, 20), (2, 22), (22, 2), (12, 13), (23, 24)):
+        rules.append(e1.RuleCase("D25", base_pat + [{"mov": [names[i], names[j]]}], "d25", want=W))
+    return rules
+
+
+def fam_d25_listings():
+    base = [("mov", [D25[k], D25[k + 1]]) for k in range(0, 24, 2)] + [("push", [D25[24]])]
+    probe = [0, 1, 2, 9, 10, 11, 12, 13, 19, 20, 22, 23, 24]
+    return [base + [("mov", [D25[a], D25[b]])] for a in probe for b in probe]
+
+
 def fam_d(tier):
     return [e1.RuleCase("D", fam_d_pattern(i, j), "d", want=W) for i in range(11) for j in range(11)
             if tier == "thorough" or (i in (0, 1, 9, 10) or j in (0, 9, 10))]
 
 
 def all_rules(tier):
-    return fam_a(tier) + fam_b(tier) + fam_c(tier) + fam_d(tier) + fam_e(tier) + fam_f(tier)
+    return fam_a(tier) + fam_b(tier) + fam_c(tier) + fam_d(tier) + fam_d25() + fam_e(tier) + fam_f(tier)
 
 
 def shards(tier):
@@ -195,7 +215,7 @@ def shards(tier):
 
 def build_lsets(h, tier):
     ls = {"ab": e1.ListingSet(h, ALPHA_AB, bounds(tier)["L_AB"]), "c": e1.ListingSet(h, ALPHA_C, 2),
-          "d": e1.ExplicitListingSet(h, fam_d_listings(h)), "f": e1.ListingSet(h, ALPHA_F, 2)}
+          "d": e1.ExplicitListingSet(h, fam_d_listings(h)), "d25": e1.ExplicitListingSet(h, fam_d25_listings()), "f": e1.ListingSet(h, ALPHA_F, 2)}
     for fam in FAM_REGS:
         l1, l2 = fam_e_listings(fam)
         ls["e_" + fam] = e1.ExplicitListingSet(h, l1)
